@@ -1070,7 +1070,17 @@ func ruleBackExt(c *Ctx) {
 				okX = false
 				break
 			}
-			for _, cs := range fi.topCases(nf[0].L, call.Block()) {
+			// the negated guard is examined where it is evaluated (the conditions of the call's block contain
+			// the guard itself, which would make the hypotheses contradictory)
+			at := call.Block()
+			if cd.V.Referrers() != nil {
+				for _, r := range *cd.V.Referrers() {
+					if iff, ok := r.(*ssa.If); ok && (iff.Block() == at || iff.Block().Dominates(at)) {
+						at = iff.Block()
+					}
+				}
+			}
+			for _, cs := range fi.topCases(nf[0].L, at) {
 				extra := append(append([]Fact{}, cs.Eqs...), Fact{cs.L, LE})
 				if !(fi.proveLE0(pend, cs.Conds, extra, map[string]bool{}, 0) || fi.proveLE0(j, cs.Conds, extra, map[string]bool{}, 0)) {
 					okX = false
